@@ -169,12 +169,19 @@ class Recorder:
             # composite deletion is done by the composite itself: reconstruct from the indices
             idx = [int(i) for i in np.asarray(getattr(ctx, "_deleted_indices", []), dtype=int).ravel()]
             k = 0
+            gone = []   # label values already taken in this call (the composite filters its candidates by value)
             for m in el:
                 lab = np.asarray(m.labels)
+                if not (set(int(x) for x in lab if x >= 0) - set(gone)):
+                    # the composite skips an element that has no candidate left (or never had a non-negative label):
+                    # the next chunk of deleted indices belongs to a later element
+                    out.append({"k": "exch", "dir": "del", "lab": NOLAB, "ok": False, "refreshed": [], "size": 0})
+                    continue
                 if k < len(idx) and idx[k] < len(lab):
                     lb = int(lab[idx[k]])
                     cnt = int((lab == lb).sum())
                     out.append({"k": "exch", "dir": "del", "lab": lb, "ok": True, "refreshed": [], "size": 0})
+                    gone.append(lb)
                     k += cnt
                 else:
                     out.append({"k": "exch", "dir": "del", "lab": NOLAB, "ok": False, "refreshed": [], "size": 0})
